@@ -210,7 +210,7 @@ func (c *Ctx) ruleKeepAliveClassify(rr *RuleRep, ka *ssa.Function, ctx, ctxTo ss
 	}
 	// returns
 	chk := func(cs *selCase, name string, pred func(ssa.Value) bool, want string) {
-		reach := ReachableFromBlock(ka, cs.Edge.B.Succs[cs.Edge.K], PathQ{})
+		reach := ReachableViaEdge(ka, ifEdge{cs.Edge.B, cs.Edge.K}, PathQ{})
 		n := 0
 		for _, ret := range returnsOf(ka) {
 			if !reach[ret] {
@@ -218,6 +218,13 @@ func (c *Ctx) ruleKeepAliveClassify(rr *RuleRep, ka *ssa.Function, ctx, ctxTo ss
 			}
 			n++
 			ev := c.errResult(ret)
+			// one return for all cases (`err = …` per case, `return err` below): what the result holds on the paths through
+			// this case's edge
+			if phi, isPhi := c.Resolve(ev).(*ssa.Phi); isPhi {
+				if vs, reached := valuesAlong(ka, cs.Edge, ret, phi, nil); reached && len(vs) == 1 {
+					ev = vs[0]
+				}
+			}
 			cause := ev
 			if call, callee := c.asCall(ev); call != nil && callee != nil && callee.Pkg == c.Pkg && c.isWrapFn(callee) {
 				cause = call.Call.Args[0]
